@@ -281,6 +281,23 @@ def chunk_sleep(chunk, acc):
                 acc.case((st, jit, frac), nontrivial=st > 0, outcome=got)
                 if isinstance(got, str) or not (lo - 1e-6 <= got <= hi + 1e-6):
                     acc.fail("C19/sleep/outside-jitter-band", {"kind": "sleep", "sleeptime": st, "jitter": jit, "uniform": frac}, [lo, hi], got)
+    # the settings are changed while the beacon runs (what a COMMAND_SLEEP handler does): the next interval follows
+    # the settings as they are now
+    for st0, jit0 in ((1000, 50), (60000, 50), (3000, 0)):
+        for st1, jit1 in ((60000, 0), (1000, 10), (5000, 100), (0, 0)):
+            for frac in (0.0, 1.0):
+                acc.states += 1
+                acc.transitions += 1
+                with Seams(uniform_frac=frac):
+                    cl = HttpBeaconClient()
+                    cl.run(cfg, dry_run=True, beacon_id=2, user="u", computer="c", process="p", sleeptime=st0, jitter=jit0)
+                    cl.get_sleep_time()
+                    cl.sleeptime, cl.jitter = st1, jit1
+                    got = call(cl.get_sleep_time)
+                lo, hi = st1 * (1 - jit1 / 100), st1
+                acc.case(("changed", st0, jit0, st1, jit1, frac), nontrivial=True, outcome=got)
+                if isinstance(got, str) or not (lo - 1e-6 <= got <= hi + 1e-6):
+                    acc.fail("C19/sleep/outside-jitter-band/after-settings-change", {"kind": "sleep", "sleeptime": st1, "jitter": jit1, "uniform": frac, "before": [st0, jit0]}, [lo, hi], got)
     # defaults come from the configuration
     for st, jit in ((5000, 20), (0, 0)):
         cfg2 = fresh_config(sleeptime=st, jitter=jit)
